@@ -1542,7 +1542,7 @@ pub(crate) fn compile_ast_to_ir_to_asm(
 
     // Verification hook H4 (initial stage): optionally round-trip the IR through its textual form.
     #[cfg(fuellabs_sway_verif)]
-    if verif_hooks::ir_roundtrip_requested("initial") {
+    if verif_hooks::ir_roundtrip_requested("initial") && ir.program_kind != sway_ir::Kind::Library {
         ir = verif_hooks::ir_roundtrip(handler, ir, engines.se())?;
     }
 
@@ -1646,7 +1646,7 @@ pub(crate) fn compile_ast_to_ir_to_asm(
 
     // Verification hook H4 (final stage).
     #[cfg(fuellabs_sway_verif)]
-    if verif_hooks::ir_roundtrip_requested("final") {
+    if verif_hooks::ir_roundtrip_requested("final") && ir.program_kind != sway_ir::Kind::Library {
         ir = verif_hooks::ir_roundtrip(handler, ir, engines.se())?;
     }
 
@@ -2155,7 +2155,8 @@ pub(crate) mod verif_hooks {
         Some(group)
     }
 
-    /// H4: `SWAY_VERIF_IR_ROUNDTRIP=initial|final|both`.
+    /// H4: `SWAY_VERIF_IR_ROUNDTRIP=initial|final|both` (library modules are skipped: the IR
+    /// parser has no syntax for them and they are never lowered on their own).
     pub(crate) fn ir_roundtrip_requested(stage: &str) -> bool {
         match std::env::var("SWAY_VERIF_IR_ROUNDTRIP") {
             Ok(v) => v == stage || v == "both",
